@@ -175,9 +175,10 @@ PARTIAL2 = G + ("partial", 2)
 BI1, BI2 = G + ("builtins", 1), G + ("builtins", 2)
 OVER = G + ("over", 1)
 SPEC = G + ("specials", 1)      # IEEE corners: NaN, infinities, the two zeros
+SIZES = G + ("sizes", 1)        # composite values and nesting depths around the VM stack's initial capacity and growth
 # explore: seeded type-directed programs of depth <= 5 from the harness (gen_prog.go), judged by TLC like the others
-eval_prop("C01", [OBJS, LAZY, OPT], [OBJS, LAZY, OPT, U1F, U2], 1200, 40000, "deep")
-eval_prop("C02", [PARTIAL, LAZY, OPT, SPEC], [PARTIAL2, LAZY, OPT, SPEC, OBJS, U1F, U2], 1200, 40000, "deep")
+eval_prop("C01", [OBJS, LAZY, OPT, SIZES], [OBJS, LAZY, OPT, SIZES, U1F, U2], 1200, 40000, "deep")
+eval_prop("C02", [PARTIAL, LAZY, OPT, SPEC, SIZES], [PARTIAL2, LAZY, OPT, SPEC, SIZES, OBJS, U1F, U2], 1200, 40000, "deep")
 eval_prop("C04", [BI1], [BI2, PARTIAL, U1F], 0, 20000, "deep")
 eval_prop("C05", [U1S, OVER], [U1F, U2, OPT, OBJS, OVER], 1200, 40000, "deep")
 eval_prop("C06", [LAZY, PARTIAL], [LAZY, PARTIAL, U1F, U2], 1200, 40000, "deep")
@@ -236,7 +237,8 @@ def vm_prop(pid, quick_modes, thorough_modes):
         vm_stage(run, pid, modes, explore=explore)
         if pid == "C03":
             # the four back ends against each other and the specification (values, failures, logs)
-            eval_stage(run, pid, [m[:1] + ("Gen_Eval.cfg",) + m[2:] for m in modes], relevant=EVAL_REL["C03"])
+            eval_stage(run, pid, [m[:1] + ("Gen_Eval.cfg",) + m[2:] for m in modes] + [G + ("bcbig", 2 if tier == "thorough" else 1)],
+                       relevant=EVAL_REL["C03"])
         run.bounds = dict(universes=[dict(root=m[0], mode=m[2], size=m[3]) for m in modes],
                           explore="%d seeded type-directed programs of depth <= 5" % explore)
         return finish(run, "model_checking", VM_RULE, assumptions=EVAL_ASSUME)
@@ -249,7 +251,7 @@ def vm_prop(pid, quick_modes, thorough_modes):
 vm_prop("C11", [GV + ("bc", 1), GV + ("lazy", 1), GV + ("partial", 1), GV + ("bcbig", 1)],
         [GV + ("bc", 1), GV + ("lazy", 1), GV + ("partial", 2), GV + ("objs", 1), GV + ("opt", 1), GV + ("builtins", 2), GV + ("u1", 2),
          GV + ("bcbig", 2)])
-vm_prop("C03", [GV + ("bc", 1), GV + ("lazy", 1), GV + ("partial", 1), GV + ("over", 1), GV + ("specials", 1)],
+vm_prop("C03", [GV + ("bc", 1), GV + ("lazy", 1), GV + ("partial", 1), GV + ("over", 1), GV + ("specials", 1), GV + ("sizes", 1)],
         [GV + ("bc", 1), GV + ("lazy", 1), GV + ("partial", 2), GV + ("over", 1), GV + ("objs", 1), GV + ("builtins", 2), GV + ("u1", 2), GV + ("u2", 1)])
 
 
